@@ -1742,3 +1742,66 @@ func TestD48_CallTimeGeneratorOverridesDefaultGenerator(t *testing.T) {
 		}
 	}
 }
+
+// D49 (C16): D48 made generators run last to first, but INSIDE the loop over
+// the values they are shown: when a default generator reacts to a value that
+// the call-time generator ignores, and that value happens to be shown first
+// (map order), the default generator's converter entered the graph first and
+// stayed. About a quarter of identical calls ran the default.
+func TestD49_GeneratorPrecedenceDoesNotDependOnTheOrderValuesAreShownIn(t *testing.T) {
+	byType := func(label string) argmapper.ConverterGenFunc {
+		return func(v argmapper.Value) (*argmapper.Func, error) {
+			if v.Type != reflect.TypeOf(0) {
+				return nil, nil
+			}
+			return argmapper.NewFunc(func(int) string { return label })
+		}
+	}
+	byName := func(label string) argmapper.ConverterGenFunc {
+		return func(v argmapper.Value) (*argmapper.Func, error) {
+			if v.Type != reflect.TypeOf(0) || v.Name != "id" {
+				return nil, nil
+			}
+			return argmapper.NewFunc(func(int) string { return label })
+		}
+	}
+	for i := 0; i < 400; i++ {
+		target := argmapper.MustFunc(argmapper.NewFunc(func(s string) string { return s }, argmapper.ConverterGen(byType("default"))))
+		res, p := call(target, argmapper.Named("id", 1), argmapper.Named("other", 2), argmapper.ConverterGen(byName("call")))
+		if p != nil || res.Err() != nil {
+			t.Fatalf("%v %v", p, res.Err())
+		}
+		if got := res.Out(0).(string); got != "call" {
+			t.Fatalf("iteration %d: the converter of the %s generator ran; the generator given to Call overrides the default one", i, got)
+		}
+	}
+}
+
+// D50 (C15): D41/D47 for types that are not interfaces. A value declared with
+// a defined type that holds a reflect.Value of a DIFFERENT type assignable to
+// it ([]int for `type IDs []int`, chan int for <-chan int; SignatureValues
+// accepts both) was sent under the type it holds by Arg()/Args().
+type d50IDs []int
+
+func TestD50_ArgsHonourTheDeclaredTypeForAssignableValuesOfAnotherType(t *testing.T) {
+	f := argmapper.MustFunc(argmapper.NewFunc(func(in struct {
+		argmapper.Struct
+		IDs d50IDs
+		C   <-chan int `argmapper:",typeOnly"`
+	}) int {
+		return len(in.IDs)
+	}))
+	set := f.Input()
+	set.Named("ids").Value = reflect.ValueOf([]int{1, 2, 3})
+	set.Typed(reflect.TypeOf((<-chan int)(nil))).Value = reflect.ValueOf(make(chan int))
+	res, p := call(f, set.Args()...)
+	if p != nil {
+		t.Fatalf("panic: %v", p)
+	}
+	if res.Err() != nil {
+		t.Fatalf("the function called with its own, fully filled input set: %v", res.Err())
+	}
+	if got := res.Out(0).(int); got != 3 {
+		t.Fatalf("got %d", got)
+	}
+}
